@@ -113,15 +113,22 @@ func canon(s []span) ([]span, error) {
 	allEmpty := true
 	// Merge overlapping/adjoining elements.
 	out := s[:0]
+	// merged[j] records that s[j] has been folded into an earlier element.
+	// The elements folded into s[i] need not be the ones right after it,
+	// because some of those in between may be left alone (see below).
+	merged := make([]bool, len(s))
 	for i := 0; i < len(s); i++ {
 		this := s[i]
-		if this.rank == empty {
+		if this.rank == empty || merged[i] {
 			continue
 		}
 		allEmpty = false
 		// Merge as many as possible into this element.
 		for j := i + 1; j < len(s); j++ {
 			next := s[j]
+			if merged[j] {
+				continue
+			}
 			if !this.max.equal(next.min) { // If equal, we can merge unless both are open (handled below)
 				if len(this.max.pre) == 0 {
 					maxPlusOne := this.max.copy()
@@ -146,8 +153,8 @@ func canon(s []span) ([]span, error) {
 			if !equalPrerelease(this.min, this.max) || !equalPrerelease(this.min, next.min) || !equalPrerelease(this.min, next.max) {
 				continue
 			}
-			// We'll process the element now, so on the next outer loop, skip it.
-			i++
+			// We'll process the element now, so the outer loop must skip it.
+			merged[j] = true
 			if next.rank == empty {
 				continue
 			}
